@@ -48,7 +48,11 @@ def attribute_attack(rng):
         '."%s"\npara' % b, '.cls "a:%s"\n- item' % b, '.#id%s\npara' % b, '.c%s\npara' % b, '[cap](http://h/%s)' % b,
         '^[cap](http://h/%s)' % b, '<http://h/%s|cap>' % b, '<http://h/%s>' % b, '<image:http://h/%s|alt>' % b, '<image:i|a%s>' % b,
         '![a%s](u)' % b, '![a](u%s)' % b, '<a@b.c%s|cap>' % b, '<a%s@b.c>' % b, 'http://h/%s' % b, '<<#a%s>>' % b, '# Head %s' % b,
-        '.. c%s\ntext\n..' % b, '`` js%s\ncode\n``' % b, '"" q%s\nquote\n""' % b])
+        '.. c%s\ntext\n..' % b, '`` js%s\ncode\n``' % b, '"" q%s\nquote\n""' % b,
+        # something that looks like an attribute in the *text* of the element the pending attributes go to
+        '."a:b%s"\n# Head style="x" tail' % b, '.k%s\n# Head class="x" tail' % b, '.#i3\n## Head id="x" %s' % b,
+        '."c:d <script>x</script>"\n= Set style="q" on it', '.k1 k2\n- item class="z" %s' % b,
+        '."e:f%s"\nterm style="t":: def' % b])
 
 
 def hostile_source(rng, repo):
@@ -116,6 +120,12 @@ class C01(Prop):
             out.append({'steps': [{'src': "/%s/ = 'x'\nabc" % rx_, 'reset': True, 'callback': True}]})
             out.append({'steps': [{'src': "{m} = 'x'\n{m=%s}text {m!%s}" % (rx_.replace('}', '\\}'), rx_.replace('}', '\\}')), 'reset': True,
                                    'callback': True}]})
+        # a quote defined by one call and used after a reset (tables and the patterns built from them must go together)
+        for q in ['%%', '==', '##', '$$', '^^', '~', '=', '!!']:
+            for r2 in [True, None]:
+                out.append({'steps': [{'src': "%s = '<u>|</u>'\n\nuse %sit%s" % (q, q, q), 'reset': True, 'callback': True},
+                                      {'src': "100%ssure%s thing %s" % (q, q, q), 'reset': r2, 'callback': True},
+                                      {'src': "again %sx%s" % (q, q), 'reset': True, 'safeMode': 1, 'callback': True}]})
         # an API option element may name anything: every global of the options module, then something to report
         for name in ['callback', 'safeMode', 'htmlReplacement', 'reset', 'init', 'panic', 'errorCallback', 'setOption', 'updateFrom',
                      'document', 'utils', 'Callback', 'RenderOptions', 'isSafeModeNz', 'htmlSafeModeFilter', '__name__', '__dict__']:
